@@ -2,7 +2,9 @@
 C01 — differential operators return the mathematical operator's value.
 
 Functions under contract (jinns/loss/_operators.py): _laplacian_rev, _div_rev,
-_vectorial_laplacian (PINN branch), _u_dot_nabla_times_u_rev; re-exports of jinns.loss.
+_vectorial_laplacian (both branches), _u_dot_nabla_times_u_rev, and the forward-mode _laplacian_fwd, _div_fwd,
+_u_dot_nabla_times_u_fwd (through contracts.c11.operator_ob: a real SPINN over uninterpreted embeddings, every grid
+entry equals the operator of the pointwise twin); re-exports of jinns.loss.
 Postconditions are the textbook definitions; the field is an uninterpreted C^4 function, the
 point, the time and the network parameters are symbolic, d in 1..4, with and without time.
 """
@@ -162,4 +164,21 @@ def obligations(tier):
         for d in (1, 3):
             obs.append(adv_raises(d, with_t))
     obs.append(FnObligation("C01/jinns.loss/reexports", reexports, ["jinns.loss.__init__"]))
+    # the forward-mode (separable-network) operators exported by jinns.loss are operators of the property too: their
+    # contract is the C11 one (grid entry == the mathematical operator applied to the pointwise twin, by symbolic
+    # differentiation) — same obligations, reported under C01
+    from contracts import c11
+    rB = [(1, 2), (2, 1)] if tier == "quick" else [(1, 1), (1, 2), (2, 1), (2, 2)]
+    for with_t in (False, True):
+        for dx in (1, 2, 3):
+            if with_t and dx == 3:
+                continue
+            for (r, B) in rB:
+                if (dx + with_t) == 3 and r == 2 and B == 2:
+                    continue
+                whiches = ["lap", "div"] + (["veclap"] if dx >= 2 else []) + (["adv"] if dx == 2 else [])
+                for which in whiches:
+                    o = c11.operator_ob(which, with_t, dx, r, B)
+                    o.name = o.name.replace("C11/", "C01/fwd/").replace("grid_entry_equals_pointwise", "ensures.grid_entry_is_operator_value")
+                    obs.append(o)
     return obs
